@@ -774,6 +774,64 @@ static void do_batch(hist_t *H) {
   vh_count("batches", 1);
 }
 
+/* A memtable flush that runs in the MIDDLE of a compaction: the compaction thread is parked (iomon gate) right
+   where it creates its first output file; the foreground fills the write buffer so that an immutable memtable
+   is pending; when the gate opens the compaction loop flushes it and collects garbage while its own outputs
+   are still unfinished.  Also: iterators and snapshots created while the immutable memtable exists. */
+typedef struct midc_s { ldb_t *db; int level; } midc_t;
+
+static void *midc_thread(void *p) {
+  midc_t *a = p;
+  ldb_test_compact_range(a->db, a->level, NULL, NULL);
+  return NULL;
+}
+
+static void flush_mid_compaction(hist_t *H) {
+  layout_t l;
+  midc_t arg;
+  pthread_t th;
+  uint64_t ctr[8];
+  int level = -1, g, i, reached, switched = 0;
+  if (H->h.cfg.write_buffer_size > (256 << 10)) return;
+  ldb_verif_wait_idle(H->h.db);
+  ldb_verif_counters(H->h.db, ctr);
+  if (ctr[7] != 0 || !dbh_layout(H->h.db, &l)) return;
+  for (i = 0; i < 6; i++) if (l.per_level[i] > 0) { level = i; break; }
+  layout_free(&l);
+  if (level < 0) return;
+  iom_gate_clear();
+  g = iom_gate_arm(IOP_CREATE, PC_TABLE, 1);
+  arg.db = H->h.db; arg.level = level;
+  if (pthread_create(&th, NULL, midc_thread, &arg) != 0) vh_fatal("pthread_create");
+  reached = iom_gate_wait(g, 1500);
+  if (reached) {
+    /* compaction parked inside its first output: fill the memtable until it is switched */
+    for (i = 0; i < 600 && !switched; i++) {
+      do_put(H, pick_row(H), 1500 + vr_uniform(&H->r, 1500), 0);
+      ldb_verif_counters(H->h.db, ctr);
+      switched = ctr[7] != 0;
+    }
+    if (switched) {
+      vh_count("midc_imm_pending_while_compaction_parked", 1);
+      /* views created while the immutable memtable is pending */
+      if (H->niters < MAX_ITERS) { iter_open(H); iter_drive(H, &H->iters[H->niters - 1], 6); }
+      snap_take(H);
+      for (i = 0; i < 8; i++) check_get(H, pick_row(H));
+    }
+  } else {
+    vh_count("midc_gate_not_reached", 1);
+  }
+  shadow_start(H);
+  iom_gate_release(g);
+  pthread_join(th, NULL);
+  shadow_stop(H);
+  iom_gate_clear();
+  H->compactions++;
+  if (reached && switched) vh_count("midc_flush_during_compaction", 1);
+  quiescent_checks(H, "flush-mid-compaction", 0);
+  full_check(H, "flush-mid-compaction");
+}
+
 static void structural(hist_t *H, int kind) {
   /* kind: 0 flush, 1 compact_range(level), 2 ldb_compact(range), 3 ldb_compact(all) */
   char why[64];
@@ -1045,7 +1103,7 @@ static void template_l0_chain(hist_t *H) {
 /* one history */
 
 typedef struct weights_s {
-  int put, del, batch, get, flush, crange, cmanual, call, reopen, snap, unsnap, iopen, iclose, idrive, approx, prop;
+  int put, del, batch, get, flush, crange, cmanual, call, reopen, snap, unsnap, iopen, iclose, idrive, approx, prop, midc;
 } weights_t;
 
 static void run_case(uint64_t seed, int caseidx, int focus, const char *base, int steps_max) {
@@ -1053,7 +1111,7 @@ static void run_case(uint64_t seed, int caseidx, int focus, const char *base, in
   cfg_t cfg;
   char dir[600];
   int nkeys, total, rc;
-  weights_t w = {300, 80, 60, 150, 18, 18, 5, 3, 8, 20, 20, 15, 12, 100, 6, 6};
+  weights_t w = {300, 80, 60, 150, 18, 18, 5, 3, 8, 20, 20, 15, 12, 100, 6, 6, 5};
   double t0 = vh_now();
 
   H->focus = focus;
@@ -1066,7 +1124,7 @@ static void run_case(uint64_t seed, int caseidx, int focus, const char *base, in
   switch (focus) {
     case F_C06: w.snap = 70; w.unsnap = 45; w.flush = 30; w.crange = 35; w.cmanual = 8; w.idrive = 60; break;
     case F_C07: w.idrive = 500; w.iopen = 40; w.iclose = 25; w.get = 60; w.flush = 22; w.crange = 22; break;
-    case F_C13: w.iopen = 45; w.iclose = 30; w.flush = 40; w.crange = 40; w.reopen = 14; w.idrive = 60; break;
+    case F_C13: w.iopen = 45; w.iclose = 30; w.flush = 40; w.crange = 40; w.reopen = 14; w.idrive = 60; w.midc = 14; break;
     case F_C14: w.flush = 40; w.crange = 50; w.cmanual = 10; w.reopen = 16; break;
     default: break;
   }
@@ -1099,7 +1157,7 @@ static void run_case(uint64_t seed, int caseidx, int focus, const char *base, in
   else if (H->tmpl == 4) template_l0_chain(H);
 
   total = w.put + w.del + w.batch + w.get + w.flush + w.crange + w.cmanual + w.call + w.reopen + w.snap +
-          w.unsnap + w.iopen + w.iclose + w.idrive + w.approx + w.prop;
+          w.unsnap + w.iopen + w.iclose + w.idrive + w.approx + w.prop + w.midc;
 
   for (H->step = 0; H->step < H->steps; H->step++) {
     int c = (int)vr_uniform(&H->r, (uint32_t)total);
@@ -1129,6 +1187,8 @@ static void run_case(uint64_t seed, int caseidx, int focus, const char *base, in
       structural(H, 2);
     } else if (TAKE(w.call)) {
       structural(H, 3);
+    } else if (TAKE(w.midc)) {
+      flush_mid_compaction(H);
     } else if (TAKE(w.reopen)) {
       do_reopen(H, 1);
     } else if (TAKE(w.snap)) {
